@@ -15,15 +15,26 @@ variable {α β : Type}
 abbrev Pos := Proofs.Pos
 abbrev Equiv {β : Type} [Inhabited β] := @Proofs.Equiv β _
 
+-- concrete tensors shared by the non-vacuity examples below
+private def nv_x : Tensor Int := ⟨[2, 3], [1, -2, 3, -4, 5, -6]⟩
+private def nv_s : Tensor Int := ⟨[3], [10, 20, 30]⟩
+
 /-- shape (hence rank and element count) is preserved, and density -/
 theorem unary_shape (f : α → β) (t : Tensor α) : (unaryOp f t).shape = t.shape ∧ ((t.WF) → (unaryOp f t).WF) :=
   ⟨rfl, Proofs.Unary.map_WF f t⟩
+
+-- non-vacuity of the inner implication: a dense 2×3 input
+example : (unaryOp (fun v : Int => v * v) nv_x).WF := (unary_shape (fun v : Int => v * v) nv_x).2 rfl
 
 /-- each element is mapped independently through `f`: the element at every in-range index of the
 result is `f` of the input element at that index -/
 theorem unary_get [Inhabited α] [Inhabited β] (f : α → β) (t : Tensor α) (hW : t.WF) (idx : List Nat)
     (h : InRange idx t.shape) : (unaryOp f t).get idx = f (t.get idx) :=
   Proofs.Unary.map_get f t hW idx h
+
+-- non-vacuity: squaring a 2×3 tensor, read at [1, 2]
+example : (unaryOp (fun v : Int => v * v) nv_x).get [1, 2] = (fun v : Int => v * v) (nv_x.get [1, 2]) :=
+  unary_get _ nv_x rfl [1, 2] (by decide)
 
 /-- ONNX PRelu: slope unidirectionally broadcast to x; `y = x < 0 ? slope·x : x` -/
 def preluSpec [Inhabited α] (lt0 : α → Bool) (mul : α → α → α) (x slope : Tensor α) : Option (Tensor α) :=
@@ -50,6 +61,10 @@ theorem prelu_eq_spec [Inhabited α] (lt0 : α → Bool) (mul : α → α → α
     rfl
   · cases hsp
 
+-- non-vacuity: a 2×3 input, a slope row of 3 broadcast over the rows
+example : ∃ m, preluOp (fun v : Int => decide (v < 0)) (· * ·) nv_x nv_s = .ok m ∧ Equiv m ⟨[2, 3], [1, -40, 3, -40, 5, -180]⟩ :=
+  prelu_eq_spec _ _ nv_x nv_s rfl rfl (by simp [Proofs.Pos, nv_x]) (by simp [Proofs.Pos, nv_s]) _ (by decide)
+
 theorem prelu_refuses [Inhabited α] (lt0 : α → Bool) (mul : α → α → α) (x slope : Tensor α)
     (hpx : Pos x.shape) (hps : Pos slope.shape) (hsp : preluSpec lt0 mul x slope = none) :
     preluOp lt0 mul x slope = .error .broadcast := by
@@ -59,6 +74,10 @@ theorem prelu_refuses [Inhabited α] (lt0 : α → Bool) (mul : α → α → α
   split at hsp
   · cases hsp
   · next hc => simpa using hc
+
+-- non-vacuity: a slope of 2 against rows of 3
+example : preluOp (fun v : Int => decide (v < 0)) (· * ·) nv_x ⟨[2], [1, 2]⟩ = .error .broadcast :=
+  prelu_refuses _ _ nv_x ⟨[2], [1, 2]⟩ (by simp [Proofs.Pos, nv_x]) (by simp [Proofs.Pos]) (by decide)
 
 /-! ### ReLU as coded, on IEEE-754 value classes -/
 
@@ -98,6 +117,9 @@ def sameUpToZeroSign (a b : FClass) : Prop :=
 /-- ReLU as coded is `max(x, 0)` (up to the sign of zero) on every class except −Inf -/
 theorem relu_impl_eq_spec (x : FClass) (h : x ≠ .negInf) : sameUpToZeroSign (reluImplClass x) (reluSpecClass x) := by
   cases x <;> simp_all [sameUpToZeroSign, reluImplClass, reluSpecClass, mulByIndicator, gtZeroClass]
+
+-- non-vacuity: the class of negative finite numbers
+example : sameUpToZeroSign (reluImplClass .neg) (reluSpecClass .neg) := relu_impl_eq_spec .neg (by decide)
 
 /-- … and on −Inf it is NaN instead of 0 (known finding relu.neg_inf) -/
 theorem relu_impl_neg_inf : reluImplClass .negInf = .nan ∧ reluSpecClass .negInf = .posZero :=
